@@ -79,6 +79,9 @@ REBINDINGS = {
 }
 
 
+_MISSING = object()
+
+
 @contextlib.contextmanager
 def rebound(ctx, names, extra=()):
     """Activate rebindings for a symbolic path; no-op for ConcreteCtx."""
@@ -92,12 +95,15 @@ def rebound(ctx, names, extra=()):
         items = [it for n in names for it in REBINDINGS[n]] + list(extra)
         for modname, attr, new in items:
             mod = importlib.import_module(modname)
-            saved.append((mod, attr, getattr(mod, attr)))
+            saved.append((mod, attr, mod.__dict__.get(attr, _MISSING)))  # builtins (set) are not module globals
             setattr(mod, attr, new)
         yield
     finally:
         for mod, attr, old in reversed(saved):
-            setattr(mod, attr, old)
+            if old is _MISSING:
+                delattr(mod, attr)
+            else:
+                setattr(mod, attr, old)
 
 
 def selftest_R2():
